@@ -140,7 +140,7 @@ def check_ret(m, vesc, feh, vdisp, sn):
     if fb >= 1.0:
         return None if r == 1.0 else {"clause": "full fallback retains everything", "observed": repr(r)}
     want = cdf(vdisp * (1 - fb), vesc)
-    if abs(r - want) > 1e-4 * want + 1e-9:
+    if not abs(r - want) <= 1e-4 * want + 1e-9:
         return {"clause": "retention = Maxwellian(vdisp·(1−fb)) integrated 0..vesc", "observed": repr(r), "expected": repr(want), "fb": repr(fb)}
     with np.errstate(all="ignore"):
         r2 = float(kicks._maxwellian_retention_frac(m, vesc * 1.1, feh, vdisp, SNe_method=sn))
@@ -178,7 +178,7 @@ def check_book(M, N, method, kw):
                 return {"clause": "nothing increases", "bin": j, "retention": repr(r)}
             if b[j] > 0 and a[j] > 0 and abs(a[j] / b[j] - m / n) > 1e-9 * (m / n):
                 return {"clause": "mean mass unchanged", "bin": j}
-    if abs(float(ej) - (sum(M) - float(a.sum()))) > 1e-9 * sc:
+    if not abs(float(ej) - (sum(M) - float(a.sum()))) <= 1e-9 * sc:
         return {"clause": "ejected = mass removed", "observed": repr(float(ej)), "expected": repr(sum(M) - float(a.sum()))}
     return None
 
